@@ -2275,22 +2275,42 @@ fn table_names(src: &Src, prefix: &str) -> Result<(String, usize, usize), String
 }
 
 /// R9: identifiers starting with `__` that occur inside quote!/parse_quote! bodies, per function, in order
-fn table_quote_idents(src: &Src, prefix: &str) -> Result<(String, usize, usize), String> {
+fn table_quote_idents(src: &Src, prefix_spec: &str) -> Result<(String, usize, usize), String> {
+    // `prefix` or `prefix+name1+name2`: besides the `__`-identifiers, the listed binder names are temporaries too
+    let mut parts = prefix_spec.split('+');
+    let prefix = parts.next().unwrap_or("qi");
+    let extra: Vec<String> = parts.map(|s| s.to_string()).collect();
     struct V {
         cur: String,
         out: Vec<(String, Vec<String>)>,
+        extra: Vec<String>,
     }
-    fn scan(ts: TokenStream, acc: &mut Vec<String>) {
+    // extras: `name` = that identifier is a temporary; `@Ctor` = the identifier that is the whole content of the
+    // parentheses after `Ctor` (a binder such as the `err` of `Err(err) => Err(err)`), whatever it is called
+    fn scan(ts: TokenStream, acc: &mut Vec<String>, extra: &[String]) {
+        let mut prev: Option<String> = None;
         for t in ts {
             match t {
                 TokenTree::Ident(i) => {
                     let s = i.to_string();
-                    if s.starts_with("__") {
-                        acc.push(s);
+                    if s.starts_with("__") || extra.contains(&s) {
+                        acc.push(s.clone());
                     }
+                    prev = Some(s);
                 }
-                TokenTree::Group(g) => scan(g.stream(), acc),
-                _ => {}
+                TokenTree::Group(g) => {
+                    let inner: Vec<TokenTree> = g.stream().into_iter().collect();
+                    let binder = match (&prev, inner.as_slice()) {
+                        (Some(p), [TokenTree::Ident(b)]) if g.delimiter() == Delimiter::Parenthesis && extra.contains(&format!("@{}", p)) => Some(b.to_string()),
+                        _ => None,
+                    };
+                    match binder {
+                        Some(b) if !b.starts_with("__") => acc.push(b),
+                        _ => scan(g.stream(), acc, extra),
+                    }
+                    prev = None;
+                }
+                _ => prev = None,
             }
         }
     }
@@ -2299,7 +2319,7 @@ fn table_quote_idents(src: &Src, prefix: &str) -> Result<(String, usize, usize),
             let n = m.path.segments.last().unwrap().ident.to_string();
             if n == "quote" || n == "parse_quote" {
                 let mut acc = Vec::new();
-                scan(m.tokens.clone(), &mut acc);
+                scan(m.tokens.clone(), &mut acc, &self.extra);
                 if let Some(last) = self.out.last_mut() {
                     if last.0 == self.cur {
                         last.1.extend(acc);
@@ -2312,7 +2332,7 @@ fn table_quote_idents(src: &Src, prefix: &str) -> Result<(String, usize, usize),
     }
     let mut items = Vec::new();
     collect_items(&src.file.items, &mut items);
-    let mut v = V { cur: String::new(), out: Vec::new() };
+    let mut v = V { cur: String::new(), out: Vec::new(), extra };
     for it in items {
         match it {
             syn::Item::Fn(f) if !skip_by_cfg(&f.attrs) => {
